@@ -246,7 +246,11 @@ func newNode() *topicNode {
 }
 
 func (node *topicNode) addClients(ans map[string]byte) {
+	// A client may match through several of its subscriptions: it is served
+	// with the highest QoS among them (MQTT-3.3.5-1), not the one seen last.
 	for client, qos := range node.clients {
-		ans[client] = qos
+		if old, ok := ans[client]; !ok || qos > old {
+			ans[client] = qos
+		}
 	}
 }
